@@ -24,7 +24,8 @@ RULE = ("1-6 input files written by write_rtf from the universal document strate
         "empty list, a list with one missing path at any position, and a pre-existing output file. Oracle: the "
         "assembled file has zero lexical / structural anomalies (C01's predicate: one balanced {\\rtf1 group, "
         "nothing after it, well-formed rows); its page list equals the concatenation of the inputs' page lists "
-        "compared as (block kind, decoded paragraph text, row cell texts, picture bytes); the first page of input "
+        "compared as (block kind, decoded paragraph text, row cell texts, text / background colours resolved through the colour "
+        "table in force at that point, picture bytes); the first page of input "
         "k carries input k's paper geometry; a single input is reproduced byte-identically; the empty list "
         "creates no file; a missing input raises FileNotFoundError and leaves the output path as it was. "
         "Non-trivial = >=2 inputs of which one is multi-page or of another kind / geometry.")
@@ -87,6 +88,21 @@ def budget(tier):
     return 60 if tier == "quick" else 1500
 
 
+def colours_of(doc, t):
+    """Text / background colour of a paragraph or cell as RGB, resolved through the colour table in force where it stands
+    (a later {\\colortbl} group replaces the earlier one for everything after it)."""
+    cp = t.cprops
+    k = cp.get("_ct", 0)
+    table = doc.colortbls[k - 1] if 0 < k <= len(doc.colortbls) else []
+
+    def rgb(ix):
+        if not ix:
+            return None
+        return table[ix] if ix < len(table) else "dangling"
+
+    return (rgb(cp.get("cf")), rgb(cp.get("chcbpat")) or rgb(cp.get("cb")))
+
+
 def page_sig(doc):
     pages = []
     for pg in doc.pages:
@@ -94,9 +110,9 @@ def page_sig(doc):
         for b in pg:
             if isinstance(b, Para):
                 if b.text:
-                    items.append(("para", b.text))
+                    items.append(("para", b.text, colours_of(doc, b)))
             elif isinstance(b, Row):
-                items.append(("row", tuple(c.text for c in b.cells)))
+                items.append(("row", tuple(c.text for c in b.cells), tuple(colours_of(doc, c) for c in b.cells)))
             elif isinstance(b, Pict):
                 items.append(("pict", hashlib.sha1(b.data).hexdigest()[:12], len(b.data)))
         pages.append(items)
@@ -119,7 +135,7 @@ def check(case) -> Result:
                 built.doc.write_rtf(p)
             with open(p, "rb") as f:
                 data = f.read()
-            d = read(data)
+            d = read(data, track_colortbl=True)
             if not d.ok():
                 res.excluded = "input_not_well_formed"
                 return res
@@ -178,7 +194,7 @@ def check(case) -> Result:
         res.checks += 1
         if data != raw[order[0]]:
             res.fail("single_input", "not_identical", f"{len(data)} bytes vs {len(raw[order[0]])}")
-    d = read(data)
+    d = read(data, track_colortbl=True)
     tag = "+".join(sorted(set(kinds)))
     pos_kind = lambda k: f"{kinds[k]}@{'first' if k == 0 else 'later'}"
     seen = set()
